@@ -183,8 +183,7 @@ theorem validate_spec (D : Discard) (o : Options) (st : State) (m : Message) :
     | none => ∃ e, (validate D o st m).1 = .error e := by
   unfold specValidate validate
   rcases validateFields_char D o m.fields 0 (by omega) with ⟨⟨e, he⟩, hno⟩ | ⟨hok, hP⟩
-  · have : (!(specFields D o m.fields).all fieldOk || decide ((specFields D o m.fields).length > 255) ||
-        ((specFields D o m.fields).isEmpty && m.devFields.isEmpty)) = true := by
+  · have : (!(specFields D o m.fields).all fieldOk || decide ((specFields D o m.fields).length > 255)) = true := by
       simp only [FieldsOk, Nat.zero_add, not_and, Nat.not_le] at hno
       cases hall : (specFields D o m.fields).all fieldOk with
       | false => simp
@@ -194,36 +193,36 @@ theorem validate_spec (D : Discard) (o : Options) (st : State) (m : Message) :
   · simp only [FieldsOk, Nat.zero_add] at hP
     have hlen : decide ((specFields D o m.fields).length > 255) = false := by simp; omega
     simp only [hok, hP.1, Bool.not_true, Bool.false_or, hlen]
-    cases hempty : ((specFields D o m.fields).isEmpty && m.devFields.isEmpty) with
-    | true => simp only [↓reduceIte]; exact ⟨_, rfl⟩
+    cases hde : m.devFields.isEmpty with
+    | true =>
+      have hnil : m.devFields = [] := by simpa [List.isEmpty_iff] using hde
+      cases hfe : (specFields D o m.fields).isEmpty <;> simp [hnil, specDevs]
     | false =>
-      simp only [Bool.false_eq_true, ↓reduceIte]
-      cases hde : m.devFields.isEmpty with
-      | true =>
-        have hnil : m.devFields = [] := by simpa [List.isEmpty_iff] using hde
-        simp [hnil, specDevs]
-      | false =>
-        simp only [Bool.false_eq_true, ↓reduceIte]
-        rcases validateDevs_char D o (remember st m.num (specFields D o m.fields)) m.devFields 0 (by omega) with
-          ⟨⟨e, he⟩, hno⟩ | ⟨hok', hQ⟩
-        · have : (!m.devFields.all (devBacked (remember st m.num (specFields D o m.fields))) ||
-              !(specDevs D o (remember st m.num (specFields D o m.fields)) m.devFields).all
-                (devOk (remember st m.num (specFields D o m.fields))) ||
-              decide ((specDevs D o (remember st m.num (specFields D o m.fields)) m.devFields).length > 255)) = true := by
-            simp only [DevsOk, Nat.zero_add, not_and, Nat.not_le] at hno
-            cases h1 : m.devFields.all (devBacked (remember st m.num (specFields D o m.fields))) with
+      simp only [Bool.and_false, Bool.false_eq_true, ↓reduceIte]
+      rcases validateDevs_char D o (remember st m.num (specFields D o m.fields)) m.devFields 0 (by omega) with
+        ⟨⟨e, he⟩, hno⟩ | ⟨hok', hQ⟩
+      · have : (!m.devFields.all (devBacked (remember st m.num (specFields D o m.fields))) ||
+            !(specDevs D o (remember st m.num (specFields D o m.fields)) m.devFields).all
+              (devOk (remember st m.num (specFields D o m.fields))) ||
+            decide ((specDevs D o (remember st m.num (specFields D o m.fields)) m.devFields).length > 255)) = true := by
+          simp only [DevsOk, Nat.zero_add, not_and, Nat.not_le] at hno
+          cases h1 : m.devFields.all (devBacked (remember st m.num (specFields D o m.fields))) with
+          | false => simp
+          | true =>
+            cases h2 : (specDevs D o (remember st m.num (specFields D o m.fields)) m.devFields).all
+                (devOk (remember st m.num (specFields D o m.fields))) with
             | false => simp
-            | true =>
-              cases h2 : (specDevs D o (remember st m.num (specFields D o m.fields)) m.devFields).all
-                  (devOk (remember st m.num (specFields D o m.fields))) with
-              | false => simp
-              | true => simp [hno h1 h2]
-          simp only [this, ↓reduceIte, he]
-          exact ⟨e, rfl⟩
-        · simp only [DevsOk, Nat.zero_add] at hQ
-          have hlen' : decide ((specDevs D o (remember st m.num (specFields D o m.fields)) m.devFields).length > 255) = false := by
-            simp; omega
-          simp [hok', hQ.1, hQ.2.1, hlen']
+            | true => simp [hno h1 h2]
+        simp only [this, ↓reduceIte, he]
+        exact ⟨e, rfl⟩
+      · simp only [DevsOk, Nat.zero_add] at hQ
+        have hlen' : decide ((specDevs D o (remember st m.num (specFields D o m.fields)) m.devFields).length > 255) = false := by
+          simp; omega
+        simp only [hok', hQ.1, hQ.2.1, hlen', Bool.not_true, Bool.false_or, Bool.false_eq_true, ↓reduceIte]
+        cases hne : ((specFields D o m.fields).isEmpty &&
+            (specDevs D o (remember st m.num (specFields D o m.fields)) m.devFields).isEmpty) with
+        | true => simp only [↓reduceIte]; exact ⟨_, rfl⟩
+        | false => simp only [Bool.false_eq_true, ↓reduceIte]
 
 /-- the state after `validate`: unchanged on a field error or an empty message, otherwise `remember` -/
 theorem validate_state (D : Discard) (o : Options) (st : State) (m : Message) (m' : Message)
@@ -249,8 +248,13 @@ theorem validate_state (D : Discard) (o : Options) (st : State) (m : Message) (m
         | error e => rw [hds] at h; cases h
         | ok ds =>
           rw [hds] at h
-          simp only [Except.ok.injEq] at h
-          rw [← h]
+          dsimp only at h ⊢
+          split at h
+          · cases h
+          · rename_i hne2
+            simp only [hne2, Bool.false_eq_true, ↓reduceIte]
+            simp only [Except.ok.injEq] at h
+            rw [← h]
 
 /-- what an accepted message looks like, read off the specification -/
 theorem specValidate_some (D : Discard) (o : Options) (st : State) (m m' : Message)
@@ -258,7 +262,8 @@ theorem specValidate_some (D : Discard) (o : Options) (st : State) (m m' : Messa
     m' = { m with fields := specFields D o m.fields,
                   devFields := specDevs D o (remember st m.num (specFields D o m.fields)) m.devFields } ∧
     (specFields D o m.fields).all fieldOk = true ∧ (specFields D o m.fields).length ≤ 255 ∧
-    ¬((specFields D o m.fields).isEmpty = true ∧ m.devFields.isEmpty = true) ∧
+    ¬((specFields D o m.fields).isEmpty = true ∧
+      (specDevs D o (remember st m.num (specFields D o m.fields)) m.devFields).isEmpty = true) ∧
     m.devFields.all (devBacked (remember st m.num (specFields D o m.fields))) = true ∧
     (specDevs D o (remember st m.num (specFields D o m.fields)) m.devFields).all
       (devOk (remember st m.num (specFields D o m.fields))) = true ∧
@@ -271,10 +276,13 @@ theorem specValidate_some (D : Discard) (o : Options) (st : State) (m m' : Messa
     split at h
     · cases h
     · rename_i h2
-      simp only [Option.some.injEq] at h
-      simp only [Bool.or_eq_true, Bool.not_eq_true', decide_eq_true_eq, Bool.and_eq_true, not_or, Bool.not_eq_false,
-        Nat.not_lt] at h1 h2
-      exact ⟨h.symm, h1.1.1, h1.1.2, h1.2, h2.1.1, h2.1.2, h2.2⟩
+      split at h
+      · cases h
+      · rename_i h3
+        simp only [Option.some.injEq] at h
+        simp only [Bool.or_eq_true, Bool.not_eq_true', decide_eq_true_eq, Bool.and_eq_true, not_or, Bool.not_eq_false,
+          Nat.not_lt] at h1 h2 h3
+        exact ⟨h.symm, h1.1, h1.2, h3, h2.1.1, h2.1.2, h2.2⟩
 
 theorem mem_specFields {D : Discard} {o : Options} {fs : List Field} {f : Field} (h : f ∈ specFields D o fs) :
     ∃ g ∈ fs, keepField D o g = true ∧ f = restoredField D g := by
